@@ -58,6 +58,9 @@ func loadEngine(repo string, patterns []string, dir string) (*Engine, error) {
 	e := &Engine{repo: repo, funcs: map[string][]*ssa.Function{}, impls: map[string][]implInfo{},
 		forceInline: map[string]bool{}, noInline: map[string]bool{}, tpkgs: map[string]*types.Package{}, globals: map[*types.Var]*ssa.Global{}, typeCache: map[string]types.Type{}}
 	e.fset = token.NewFileSet()
+	if abs, err := filepath.Abs(repo); err == nil {
+		repoRootDir = strings.TrimSuffix(abs, "/")
+	}
 	cfg := &packages.Config{Mode: packages.LoadAllSyntax, Dir: dir, BuildFlags: []string{"-tags=verif"}, Fset: e.fset,
 		Env: append(os.Environ(), "GOFLAGS=-mod=mod", "GOPROXY=off", "GOSUMDB=off", "GOTOOLCHAIN=local")}
 	pkgs, err := packages.Load(cfg, patterns...)
